@@ -29,6 +29,16 @@ func Replay(id, path string) int {
 		fmt.Fprintln(os.Stderr, err)
 		return 2
 	}
+	if vs, handled := concReplay(id, v.Witness); handled {
+		if len(vs) == 0 {
+			fmt.Println("replay: no violation")
+			return 0
+		}
+		for _, x := range vs {
+			fmt.Printf("VIOLATION property=%s replay=%s\n  clause: %s\n  class: %s\n  detail: %s\n", id, path, x.Clause, x.Class, x.Detail)
+		}
+		return 1
+	}
 	f, ok := Replayers[id]
 	if !ok {
 		fmt.Fprintf(os.Stderr, "no replayer for %s\n", id)
